@@ -601,3 +601,146 @@ def k_month_nine_star(eng):
     from .almanac import _scan_replay
     r = run_kernel(eng, "17.d/B/month-nine-star", "17.d", "every year -1..9999, every index in year 0..12", build, None, _scan_replay(9, "month nine star rule"))
     return _finish(r, holder["ctx"]) if "ctx" in holder else r
+
+
+# ------------------------------------------------------------------------------------------------ day view: when the pillars switch (08.d)
+def k_day_view(eng, instant=False):
+    """instant=True: the same for SixtyCycleHour::from_solar_time with instants instead of days (12.c: order of instants), plus: the day
+    pillar it reports is the next day's from 23:00 and the hour pillar obeys Five Rats on that rolled day pillar.
+    SixtyCycleDay::from_solar_day: the year pillar is that of the civil year from the Lichun DAY on (of the previous year before it), the
+    month pillar is the Yin month's pillar of the civil year advanced by one per Jie passed since Lichun, the day pillar is the lunar day's.
+    Days are day numbers (C01), the date's term and its day are given (C06), the lunar year of the date is the civil year or the one before
+    (contract: lunar New Year falls between the two; data), the first lunar month's pillar obeys Five Tigers (08.b)."""
+    from .seasons import DayV, TermV, TJDV, install
+    holder = {}
+
+    def build(eng):
+        fn = None
+        for name, fl in eng.fns.items():
+            for f in fl:
+                if not instant and name.endswith("::from_solar_day") and f.ret == "SixtyCycleDay":
+                    fn = f
+                if instant and name.endswith("::from_solar_time") and f.ret == "SixtyCycleHour":
+                    fn = f
+        if fn is None:
+            raise Unsupported("entry function not found")
+        ctx = _ctx(eng, {})
+        rec = Rec(ctx, "solar_day" if not instant else "solar_time", "SolarDay" if not instant else "SolarTime")
+        O = ctx.fresh_value("day_number" if not instant else "instant_in_seconds", "isize")
+        sy = ctx.fresh_value("civil_year", "isize")
+        SP = ctx.fresh_value("lichun_day" if not instant else "lichun_instant", "isize")
+        hour = ctx.fresh_value("hour", "usize")
+        hp = ctx.fresh_value("lunar_hour_pillar", "usize")
+        ly = ctx.fresh_value("lunar_year_of_the_date", "isize")
+        ti = ctx.fresh_value("term_index", "usize")
+        Dt = ctx.fresh_value("term_day", "isize")
+        FM = ctx.fresh_value("first_month_pillar", "usize")
+        dp = ctx.fresh_value("day_pillar", "usize")
+        holder.update(ctx=ctx)
+        sym = TermV("sym", 0, sym={"index": ti, "day": Dt})
+
+        def termday(ykey, idx):
+            if ykey == sy.s and idx == 3:
+                return SP
+            raise Unsupported("unexpected term (%s, %d)" % (ykey, idx))
+        install(ctx, rec, O, sy, termday, sym_term=sym)
+        model = ctx.model
+        base = model.call
+
+        class LY:
+            def __init__(self, t):
+                self.t = t
+
+        def call(c, fr, callee, args, path):
+            a = [model.deref(c, x) for x in args]
+            if callee == "LunarMonth::get_lunar_year":
+                return True, LY(ly)
+            if callee == "LunarYear::get_year" and a and isinstance(a[0], LY):
+                return True, a[0].t
+            if callee == "<LunarYear as Tyme>::next" and isinstance(a[0], LY) and isinstance(a[1], T):
+                return True, LY(T("(+ %s %s)" % (a[0].t.s, a[1].s), "Int"))
+            if callee == "LunarMonth::get_sixty_cycle":
+                return True, Obj("SixtyCycle", FM)
+            if callee == "LunarDay::get_sixty_cycle":
+                return True, Obj("SixtyCycle", dp)
+            if callee in ("SolarDay::get_lunar_day", "LunarHour::get_lunar_day"):
+                return True, Rec(c, "lunar_day")
+            if callee == "SolarTime::get_lunar_hour":
+                return True, Rec(c, "lunar_hour")
+            if callee == "LunarHour::get_sixty_cycle":
+                return True, Obj("SixtyCycle", hp)
+            if callee == "SolarTime::get_hour" and a and a[0] is rec:
+                return True, hour
+            if callee == "SolarTime::get_solar_day" and a and a[0] is rec:
+                return True, Rec(c, "the_solar_day")
+            return base(c, fr, callee, args, path)
+        model.call = call
+        paths = ctx.run(fn, [rec])
+        ys = "(mod (- %s 4) 10)" % sy.s
+        pre = ["(<= 1 %s 9998)" % sy.s, "(or (= %s %s) (= %s (- %s 1)))" % (ly.s, sy.s, ly.s, sy.s), "(<= 0 %s 23)" % ti.s, "(<= 0 (- %s %s) 16)" % (O.s, Dt.s),
+               "(<= 0 %s 59)" % dp.s, "(<= 0 %s 59)" % FM.s, "(= (mod %s 12) 2)" % FM.s, "(= (mod %s 10) (mod (+ (* 2 (mod %s 5)) 2) 10))" % (FM.s, ys),
+               # Lichun is the 4th term of the term year; terms 3.. of the civil year come on or after it, terms 0..2 are either before it (January) or after the following Jie chain (December)
+               "(=> (>= %s 3) (>= %s %s))" % (ti.s, Dt.s, SP.s), "(=> (and (< %s 3) (< %s %s)) (< %s %s))" % (ti.s, Dt.s, SP.s, O.s, SP.s),
+               "(=> (>= %s %s) (>= %s %s))" % (Dt.s, SP.s, O.s, SP.s)]
+        if instant:
+            # a term lasts up to 16 days in seconds; the lunar hour's pillar obeys 09.a w.r.t. the day pillar and the hour
+            pre[3] = "(<= 0 (- %s %s) 1382400)" % (O.s, Dt.s)
+            hb = "(mod (div (+ %s 1) 2) 12)" % hour.s
+            rolled = "(ite (>= %s 23) (mod (+ %s 1) 60) %s)" % (hour.s, dp.s, dp.s)
+            pre += ["(<= 0 %s 23)" % hour.s, "(<= 0 %s 59)" % hp.s, "(= (mod %s 12) %s)" % (hp.s, hb),
+                    "(= (mod %s 10) (mod (+ (* 2 (mod (mod %s 10) 5)) %s) 10))" % (hp.s, rolled, hb)]
+
+        def shape(p):
+            r = p.ret
+            if instant:
+                if not (isinstance(r, Rec) and hasattr(r, "named") and "day" in r.named and "hour" in r.named):
+                    return "result is not a SixtyCycleHour aggregate"
+                holder["hour_field"] = r.named["hour"]
+                r = r.named["day"]
+                p.day_rec = r
+            else:
+                p.day_rec = r
+            r = p.day_rec
+            if not (isinstance(r, Rec) and hasattr(r, "named") and "month" in r.named and "day" in r.named):
+                return "result is not a SixtyCycleDay aggregate"
+            m = r.named["month"]
+            if not (isinstance(m, Rec) and hasattr(m, "named") and "year" in m.named and "month" in m.named):
+                return "month is not a SixtyCycleMonth aggregate"
+            yc = [c for c in p.calls if c[0] == "SixtyCycleYear::from_year" and c[2] is m.named["year"]]
+            if len(yc) != 1:
+                return "the year is not built by SixtyCycleYear::from_year"
+            try:
+                _pillar_idx(m.named["month"])
+                _pillar_idx(r.named["day"])
+                if instant:
+                    _pillar_idx(p.ret.named["hour"])
+            except Unsupported as e:
+                return str(e)
+            return None
+
+        def posts(p):
+            dr = p.ret.named["day"] if instant else p.ret
+            m = dr.named["month"]
+            yarg = [c for c in p.calls if c[0] == "SixtyCycleYear::from_year" and c[2] is m.named["year"]][0][1][0].s
+            mp = _pillar_idx(m.named["month"]).s
+            delta = "(ite (and (< %s 3) (> %s %s)) (+ %s 21) (- %s 3))" % (ti.s, Dt.s, SP.s, ti.s, ti.s)
+            return [("year-turns-on-the-lichun-day", "(= %s (ite (>= %s %s) %s (- %s 1)))" % (yarg, O.s, SP.s, sy.s, sy.s)),
+                    ("month-advances-at-each-jie", "(= %s (mod (+ %s (div %s 2)) 60))" % (mp, FM.s, delta)),
+                    ] + ([("day", "(= %s %s)" % (_pillar_idx(dr.named["day"]).s, dp.s))] if not instant else
+                         [("day-rolls-at-23", "(= %s (ite (= %s 23) (mod (+ %s 1) 60) %s))" % (_pillar_idx(dr.named["day"]).s, hour.s, dp.s, dp.s)),
+                          ("hour-branch", "(= (mod %s 12) (mod (div (+ %s 1) 2) 12))" % (_pillar_idx(p.ret.named["hour"]).s, hour.s)),
+                          ("hour-stem-five-rats-on-the-rolled-day", "(= (mod %s 10) (mod (+ (* 2 (mod (mod (ite (>= %s 23) (mod (+ %s 1) 60) %s) 10) 5)) (mod (div (+ %s 1) 2) 12)) 10))" % (
+                              _pillar_idx(p.ret.named["hour"]).s, hour.s, dp.s, dp.s, hour.s))])
+        return ctx, paths, pre, posts, shape
+
+    def replay(eng, model):
+        nat = eng.native("day_view_scan", 1 if instant else 0)
+        if nat in ("NONE", "PANIC", "UNKNOWN", ""):
+            return nat == "PANIC", "native scan: " + (nat or "no output")
+        return True, ("instant view" if instant else "day view") + " pillars are not the ones the rule gives: " + nat
+
+    if instant:
+        r = run_kernel(eng, "09.c/B/instant-view", "09.c", "every instant, every Lichun instant, hour 0..23, all day pillars; lunar year = civil year or the one before; the instant's term as given", build, None, replay)
+    else:
+        r = run_kernel(eng, "08.d/B/day-view", "08.d", "every date, every Lichun day, lunar year of the date = civil year or the one before, the date's term and its day as given", build, None, replay)
+    return _finish(r, holder["ctx"]) if "ctx" in holder else r
